@@ -292,3 +292,54 @@ def execute(graph, order=None, *, on_task=None, do_freeze=False):
         if on_task is not None and not isinstance(node, DataNode):
             on_task(k, node, store, out)
     return store
+
+
+# ------------------------------------------------------------------ export for spec/Exec.tla
+def export_graph(graph, value_array_name, outputs, blocklabels, outlabels):
+    """the real graph as the JSON constant of spec/Exec.tla; returns (json dict, id->key list)"""
+    from dask._task_spec import DataNode
+
+    order = topo_order(graph)
+    ident = {k: i + 1 for i, k in enumerate(order)}
+    deps, leaf, pre = [], [], []
+    for k in order:
+        node = graph[k]
+        deps.append([ident[d] for d in ordered_deps(node)])
+        is_leaf = isinstance(k, tuple) and k[0] == value_array_name
+        leaf.append(int(k[-1]) + 1 if is_leaf else 0)
+        pre.append(1 if isinstance(node, DataNode) else 0)
+    nblocks = max([x for x in leaf] + [1])
+    g = {
+        "n": len(order), "deps": deps, "leaf": leaf, "pre": pre, "nblocks": nblocks,
+        "outputs": [ident[k] for k in outputs],
+        "blocklabels": blocklabels, "outlabels": outlabels,
+    }
+    return g, order
+
+
+def run_schedule(graph, order_keys, schedule, first_digest: dict, check=None):
+    """execute the real graph following a schedule of ("run"|"lose", id) steps from TLC.
+    Every task output's digest must equal the first digest ever seen for that key.
+    Returns (store, mismatches)."""
+    from dask._task_spec import DataNode
+
+    store = {}
+    mismatches = []
+    for k in order_keys:
+        if isinstance(graph[k], DataNode):
+            store[k] = run_node(graph[k], store)
+    for act, i in schedule:
+        k = order_keys[i - 1]
+        if act == "lose":
+            store.pop(k, None)
+            continue
+        node = graph[k]
+        out = run_node(node, store)
+        store[k] = out
+        dg = digest(out)
+        if k in first_digest:
+            if first_digest[k] != dg:
+                mismatches.append((i, str(k)))
+        else:
+            first_digest[k] = dg
+    return store, mismatches
